@@ -203,6 +203,12 @@ def c16(ck):
             if i == 3:
                 ck.sample({k: (v if k not in ("oam", "src") else v[:8] + ["..."]) for k, v in r.items()})
     ck.extra["source_pages_covered"] = len(pages)
+    # the transfer at machine level: started by a guest instruction, the CPU then halts, stops, runs, restarts it or
+    # edits the source; DMA progress and the bytes written to OAM are part of every validated step
+    import gbprog
+    dm = gbprog.dma_machine_programs(random.Random(vlib.seed() + 16))
+    record_and_validate_machine(ck, dm, "c16machine", jit=False, shards=6)
+    record_and_validate_machine(ck, [dict(x, mode="block") for x in dm], "c16machinej", jit=True, shards=6)
     if thorough:
         # TLC reads the whole file; split to keep memory bounded
         parts = split_trace(path, 60000)
@@ -420,6 +426,10 @@ def c09(ck):
             ck.sample({"trace_excerpt": head_lines(files[0], 5)[1:]})
     # dispatches whose own pushes cancel them (stack pointer on IE / IF) still charge their five cycles: the pending
     # cycles after a dispatch are part of the logged projection that Trace_Machine compares with Machine.tla
+    # stepping to the next frame terminates whatever the guest wrote to LCDC
+    fr = gbprog.lcd_off_frame_programs()
+    record_and_validate_machine(ck, fr, "c09lcdoff", jit=False, shards=2, validate="Trace_Clock")
+    record_and_validate_machine(ck, fr, "c09lcdoffj", jit=True, shards=2, validate="Trace_Clock")
     cancel = gbprog.dispatch_cancel_programs(rng)
     record_and_validate_machine(ck, cancel, "c09cancel", jit=False, shards=4)
     record_and_validate_machine(ck, [dict(s, mode="block") for s in cancel], "c09cancelj", jit=True, shards=4)
@@ -464,7 +474,7 @@ def c12(ck):
     # impl -> spec: random histories over all controller types
     n = 200000 if thorough else 20000
     tr = os.path.join(rundir(), "bustr.ndjson")
-    vlib.gbv(["bus-trace", "--events", n, "--out", tr, "--no-ticks"])
+    vlib.gbv(["bus-trace", "--events", n, "--out", tr, "--no-ticks", "--no-joypad"])
     ck.count(n)
     for pth in (split_trace_init(tr, 50000) if thorough else [tr]):
         trace_validate(ck, "Trace_Machine", pth, n, "bus-history")
@@ -552,7 +562,7 @@ def c10(ck):
             ck.mismatch(m, "sweep-%s-%s" % (m["tclass"], m["pclass"]))
     n = 400000 if thorough else 40000
     tr = os.path.join(rundir(), "bustr.ndjson")
-    vlib.gbv(["bus-trace", "--events", n, "--out", tr, "--no-ticks"])       # no device time: decoding and read-back only
+    vlib.gbv(["bus-trace", "--events", n, "--out", tr, "--no-ticks", "--no-joypad"])       # no device time: decoding and read-back only
     ck.count(n)
     ck.sample({"history_excerpt": head_lines(tr, 6)[1:]})
     for pth in (split_trace_init(tr, 50000) if thorough else [tr]):
@@ -686,10 +696,13 @@ def c06(ck):
     ck.nontrivial_count += total
     ck.traces += total
     ck.exhaustive = True
-    # known finding: instructions straddling the end of a fetch region
+    # instructions straddling the end of a fetch region
     import gbprog
     scs = gbprog.straddle_programs()
     files = record_and_validate_machine(ck, scs, "c06straddle", jit=False, shards=2)
+    # the interpreter as a block stepper (cycles accumulate over a block): random blocks against Machine!StepBlock
+    rb = gbprog.random_blocks(6000 if thorough else 600, random.Random(vlib.seed() + 6))
+    record_and_validate_machine(ck, rb, "c06blocks", jit=False, shards=8)
 
 
 def pair_traces(ck, scenarios, tag, mode, owner, shards=8, classes=("C01", "C02")):
@@ -900,9 +913,10 @@ def c03(ck):
     for h in hists9:
         h["id"] += 100000
     # three configurations: MBC1 and MBC3 with 8 banks, MBC3 with 64 banks and banks that differ by 32
-    for cart, bankmap in (((1, 2, 0), (1, 2, 3)), ((0x11, 2, 0), (1, 2, 3)), ((0x11, 5, 0), (1, 33, 2))):
+    # ... and MBC3 with 72 banks (a size that is not a power of two) switching among banks 1, 9 and 2
+    for cart, bankmap in (((1, 2, 0), (1, 2, 3)), ((0x11, 2, 0), (1, 2, 3)), ((0x11, 5, 0), (1, 33, 2)), ((0x11, 0x52, 0), (1, 9, 2))):
         tag = "mbc%d_%d" % (1 if cart[0] == 1 else 3, cart[1])
-        sel = hists + hists9 if cart != (0x11, 2, 0) else [h for h in hists if h["id"] % 3 == 0] + hists9
+        sel = hists + hists9 if cart in ((1, 2, 0), (0x11, 5, 0)) else [h for h in hists if h["id"] % 3 == 0] + hists9
         scs = [gbprog.cache_history_scenario(h["id"], h["steps"], cart, bankreg=0x2000 if h["id"] % 2 == 0 else 0x3FFF, bankmap=bankmap) for h in sel]
         warm = record_and_validate_machine(ck, scs, "c03w" + tag, jit=True, shards=8, validate=False)
         cold = record_and_validate_machine(ck, scs, "c03c" + tag, jit=True, shards=8, cold=True, validate=False)
@@ -1014,6 +1028,10 @@ def c18(ck):
     # structured programs print too (serial snippet) and must print nothing else
     sp = gbprog.structured_programs(n // 3, rng, start_id=2700000, steps=300)
     fs = record_and_validate_machine(ck, sp, "c18sj", jit=True, shards=12, validate="Trace_Serial")
+    # interrupt dispatches, cancelled ones included, print nothing
+    cn = gbprog.dispatch_cancel_programs(rng)
+    record_and_validate_machine(ck, cn, "c18cancel", jit=False, shards=4, validate="Trace_Serial")
+    record_and_validate_machine(ck, [dict(x, mode="block") for x in cn], "c18cancelj", jit=True, shards=4, validate="Trace_Serial")
     # the same recordings against the whole machine (diagnosis only)
     validate_traces(Diag(ck), fj, "Trace_Machine", "c18j", True)
     nbytes = 0
@@ -1038,11 +1056,9 @@ def c18(ck):
         for s in scs[: (40 if thorough else 6)]:
             path = os.path.join(rundir(), "ser_%d.gb" % s["id"])
             open(path, "wb").write(gbprog.rom_file_bytes(s))
-            try:
-                p = subprocess.run([exe, path], stdout=subprocess.PIPE, stderr=subprocess.PIPE, timeout=1.5)
-                outb, rc = p.stdout, p.returncode
-            except subprocess.TimeoutExpired as e:
-                outb, rc = e.stdout or b"", None
+            want_len = len(b'Loading "VERIFTEST"\n') + len(expected[s["id"]])
+            # until the whole validated stream has been printed, then a moment more to see that nothing else follows
+            outb, rc, timed_out = vlib.run_until([exe, path], lambda b: len(b) >= want_len, deadline=30.0, settle=0.3)
             head = b'Loading "VERIFTEST"\n'
             want = head + bytes(expected[s["id"]])
             ck.count(1)
@@ -1099,12 +1115,10 @@ def c19(ck):
     def run_one(c):
         path = os.path.join(d, "e2e_%d.gb" % c["id"])
         gbprog.write_load_case_file(path, c)
-        try:
-            p = subprocess.run([exe, path], stdout=subprocess.PIPE, stderr=subprocess.PIPE, timeout=0.4,
-                               env=dict(os.environ, RUST_BACKTRACE="0"))
-            outb, rc = p.stdout, p.returncode
-        except subprocess.TimeoutExpired as e:
-            outb, rc = e.stdout or b"", None
+        # wait for the decisive output (probe marker after the loader's line, or the fallback banner), not for a clock
+        def done(b):
+            return (b.startswith(b'Loading "') and b"\nK" in b) or b"No ROM, loading fallback" in b
+        outb, rc, timed_out = vlib.run_until([exe, path], done, deadline=30.0)
         os.remove(path)
         return c, outb, rc
     with ThreadPoolExecutor(max_workers=12) as ex:
@@ -1205,7 +1219,7 @@ def c15(ck):
         sp = os.path.join(rundir(), "scenes_%d.ndjson" % i)
         fp = os.path.join(rundir(), "frames_%d.ndjson" % i)
         vlib.write_ndjson(sp, part)
-        recs = gbv(["ppu", "--scenes", sp, "--out", fp])
+        recs = gbv(["ppu", "--scenes", sp, "--out", fp, "--group", 3])
         for r in recs:
             if r.get("kind") == "crash":
                 ck.mismatch(r, "ppu-crash")
